@@ -321,6 +321,32 @@ def run(ck: Check):
         ck.count("very_long_run_steps", nlong)
         if bad:
             ck.violation(dict(clause="suffix-window", regime="very-long"), dict(what="after 10^5 values total / variance differ from the sum / SSD of the last `width` values (prefix sums)", config=cfgl, stream="|N(.3,.1)| x 105000 then |N(.6,.1)| x 15000 from the check's generator", **bad))
+    # the same 0/1 stream carried by narrow NumPy integers (more than 255 ones: anything accumulated in the values' own type
+    # would wrap) and by np.float64: width, total, variance and drift as for Python ints at every step
+    tprng = _random.Random(51515)
+    cfgt = dict(clock=4, delta=0.002, m=5, min_window_size=5, min_num_instances=10)
+    ints = [int(tprng.random() < 0.85) for _ in range(420)] + [int(tprng.random() < 0.3) for _ in range(180)]
+    base = DET.make(cfgt)
+    ref_tr = []
+    for v in ints:
+        base.update(value=v)
+        ref_tr.append((bool(base.drift), int(base.width), float(base.total), float(base.variance)))
+    for dt in (_np.uint8, _np.int8, _np.uint16, _np.float64):
+        dd = DET.make(cfgt)
+        bad = None
+        try:
+            for t, v in enumerate(ints):
+                dd.update(value=dt(v))
+                got = (bool(dd.drift), int(dd.width), float(dd.total), float(dd.variance))
+                if got[:2] != ref_tr[t][:2] or abs(got[2] - ref_tr[t][2]) > 1e-9 or abs(got[3] - ref_tr[t][3]) > 1e-7:
+                    bad = dict(step=t + 1, typed=got, python_int=ref_tr[t])
+                    break
+        except Exception as e:  # noqa: BLE001
+            bad = dict(error=repr(e))
+        ck.case(dict(config=cfgt, kind="typed-stream", dtype=dt.__name__, n=len(ints)), nontrivial=True, key=repr(("typed", dt.__name__)))
+        ck.count("typed_stream_runs")
+        if bad:
+            ck.violation(dict(clause="suffix-window", regime="typed-stream", dtype=dt.__name__), dict(what="width / total / variance / drift on a 0/1 stream depend on the numeric type that carries the values", config=cfgt, dtype=dt.__name__, stream_head=ints[:10], **bad))
     models = run_models("C05", cases, shard=12)
     from detectors import corr_compare
 
